@@ -236,7 +236,8 @@ def run_history(rep, dpath, tier):
 
 def shards(tier, seed):
     return [("services",), ("ids", 0), ("ids", 1), ("ids", 2), ("datalen",), ("replies",), ("routes",), ("helpers",), ("status",)] + [("history", i) for i in range(len(HIST_PATHS))] \
-        + [("helpers", "debuglog"), ("status", "debuglog"), ("history", 0, "debuglog"), ("routes", "debuglog")]
+        + [("helpers", "debuglog"), ("status", "debuglog"), ("history", 0, "debuglog"), ("routes", "debuglog")] \
+        + [("services", "python-O"), ("status", "python-O"), ("routes", "python-O"), ("replies", "python-O")]
 
 
 def describe(tier, seed):
